@@ -252,7 +252,7 @@ TUpdCall == Skip
 TUpdRet ==
   IF E.hung THEN Reject("C19-update-blocked", <<E.uid>>)
   ELSE IF E.uid \notin DOMAIN upd THEN Reject("C19-not-delivered", <<E.uid, E.errtext>>)
-  ELSE IF upd[E.uid].ids # <<E.uid, E.uid \o "/2">> THEN Reject("C19-payload-changed", <<E.uid, upd[E.uid].ids>>)
+  ELSE IF upd[E.uid].ids # E.ids THEN Reject("C19-payload-changed", <<E.uid, upd[E.uid].ids>>)
   ELSE IF upd[E.uid].err # E.err THEN Reject("C19-error-changed", <<E.uid, E.errtext>>)
   ELSE IF ~E.err /\ upd[E.uid].failed # E.failed THEN Reject("C19-failed-list-changed", <<E.uid, E.failed>>)
   ELSE Skip
